@@ -242,6 +242,7 @@ pub struct H
     /// invocations per callee function key (selects the callee script; kept outside system state)
     pub callee_calls: [u32; 3],
     pub sys: Vec<Option<SysId>>,
+    pub sys_sigs: Vec<Option<AutoDespawnSignal>>,
 }
 
 impl H
@@ -250,7 +251,7 @@ impl H
     fn for_resolve(prog: Arc<Program>, slots: Vec<Entity>) -> H
     {
         H { prog, slots, insts: Vec::new(), tokens: Vec::new(), created: Vec::new(), runs: Vec::new(), total_runs: 0, sigs: Vec::new(), sig_ent: Vec::new(), known: Vec::new(),
-            wr_keys: [HashSet::new(), HashSet::new()], ewr_members: [HashMap::new(), HashMap::new()], base_entities: 0, callee_seq: 0, callee_calls: [0; 3], sys: Vec::new() }
+            wr_keys: [HashSet::new(), HashSet::new()], ewr_members: [HashMap::new(), HashMap::new()], base_entities: 0, callee_seq: 0, callee_calls: [0; 3], sys: Vec::new(), sys_sigs: Vec::new() }
     }
     fn resolve(&self, t: &Trig) -> RTrig
     {
@@ -807,6 +808,10 @@ pub fn exec_wop(world: &mut World, op: &WOp, u: u32)
         WOp::Syscall(kind, key, input) => crate::sysfam::world_syscall(world, *kind, *key, *input, u),
         WOp::SpawnSys(k, key) => crate::sysfam::spawn_sys(world, *k, *key),
         WOp::KillSys(k) => crate::sysfam::kill_sys(world, *k),
+        WOp::RevokeNamed(n, key) => crate::sysfam::revoke_named(world, *n, *key),
+        WOp::SpawnSysRc(k, key) => crate::sysfam::spawn_sys_rc(world, *k, *key),
+        WOp::DropSysRc(k) => { let s = world.resource_mut::<H>().sys_sigs[*k as usize % 4].take(); drop(s); }
+        WOp::InsertSys(k, s, key) => { let e = slot(world, *s); crate::sysfam::insert_sys(world, *k, e, *key); }
     }
 }
 
@@ -1013,6 +1018,7 @@ fn run_inner(prog: &Arc<Program>)
         callee_seq: 0,
         callee_calls: [0; 3],
         sys: vec![None; 4],
+        sys_sigs: (0..4).map(|_| None).collect(),
     };
     // world reactor system entities exist already (counted in `before`); learn nothing about them: they are framework-owned
     for e in &slot_ents { h.slots.push(*e); h.known.push(*e); }
